@@ -18,6 +18,8 @@ SPECS = [
     {'conv': 'shoc_standard', 'ny': 5, 'nx': 6, 'node_holes': [[0, 0], [3, 3]]},
     {'conv': 'ugrid', 'ny': 4, 'nx': 5, 'split': [[0, 0], [2, 2]], 'merge': [[3, 0]]},
     {'conv': 'ugrid', 'ny': 6, 'nx': 8, 'start_index': 1, 'tables': ['edge_node']},
+    # faces of different sizes interleaved (quad, triangles, quad, ...): position n is face n whatever its size
+    {'conv': 'ugrid', 'ny': 3, 'nx': 4, 'split': [[0, 1], [1, 0], [1, 2], [2, 3]], 'merge': [[2, 0]]},
 ]
 
 
@@ -50,6 +52,10 @@ def test(inp):
     rng = random.Random(inp['seed'] * 1000 + len(polys))
     # hole interiors: points inside cells that have no geometry but whose corners are known (oracle)
     from harness.native.C06 import corners_oracle
+    want = corners_oracle(inp['spec'])           # the cell each position denotes, from the coordinates of the dataset (independent of emsarray)
+    for n, (q, w) in enumerate(zip(polys, want)):
+        if q is not None and w is not None and shapely.Polygon(w).is_valid and not shapely.Polygon(w).buffer(1e-9).contains(q):
+            return f'the polygon at position {n} is not the cell the dataset describes at position {n} (lookups would name another cell)'
     pts = points_for(polys, rng, inp['n_random'])
     for p in pts:
         hits = [n for n, q in enumerate(polys) if q is not None and q.intersects(p)]
